@@ -135,10 +135,35 @@ type caseInfo struct {
 	Classes    []string `json:"classes"`
 }
 
+// one-entry cache: consecutive cases share their base file
+var baseCache struct {
+	snap *SnapCase
+	file []byte
+	v    verdict
+}
+
 func (c RejectCase) baseFile() ([]byte, *vlib.Failure) {
 	if c.Snap == nil {
 		return c.Raw, nil
 	}
+	if baseCache.snap == c.Snap {
+		return baseCache.file, nil
+	}
+	file, f := c.baseFileUncached()
+	if f == nil {
+		baseCache.snap, baseCache.file, baseCache.v = c.Snap, file, judge(file)
+	}
+	return file, f
+}
+
+func (c RejectCase) baseVerdict(base []byte) verdict {
+	if c.Snap != nil && baseCache.snap == c.Snap {
+		return baseCache.v
+	}
+	return judge(base)
+}
+
+func (c RejectCase) baseFileUncached() ([]byte, *vlib.Failure) {
 	b := buildCase(*c.Snap)
 	if b.harnessE != nil {
 		return nil, vlib.Failf("harness-bug", "%v", b.harnessE)
@@ -175,11 +200,20 @@ func rejectionKey(v verdict) string {
 
 // evalReject evaluates one case.  Pure function of the case and of /repo.
 func evalReject(c RejectCase) (info caseInfo, fail *vlib.Failure) {
+	fail = watched(func() *vlib.Failure {
+		var f *vlib.Failure
+		info, f = evalRejectUnwatched(c)
+		return f
+	})
+	return info, fail
+}
+
+func evalRejectUnwatched(c RejectCase) (info caseInfo, fail *vlib.Failure) {
 	base, f := c.baseFile()
 	if f != nil {
 		return info, f
 	}
-	bv := judge(base)
+	bv := c.baseVerdict(base)
 	if !bv.Valid {
 		return info, vlib.Failf("harness-bug", "base file is not valid: crc=%v struct=%v", bv.CRCOK, bv.Struct)
 	}
